@@ -344,11 +344,15 @@ theorem secToPublicPair_err {ke : KeyEnv} {sec : Bytes} {e : Err} (h : secToPubl
     e = .noSuchPoint ∨ e = .encodingError := by
   unfold secToPublicPair at h
   split at h
-  · cases h
+  · split at h
+    · injection h with h; exact Or.inr h.symm
+    · cases h
   · split at h
     · split at h
-      · cases h
-      · injection h with h; exact Or.inl h.symm
+      · injection h with h; exact Or.inr h.symm
+      · split at h
+        · cases h
+        · injection h with h; exact Or.inl h.symm
     · injection h with h; exact Or.inr h.symm
 
 theorem deserializeKey_err {ke : KeyEnv} {data : Bytes} {e : Err} (h : deserializeKey ke data = .error e) :
